@@ -4,7 +4,7 @@
                    trueFull (full sequences the implementation reports true, via hw.match),
                    spell ([v, ans]: hw.match of short spellings: "true" | "false" | "refused"), cands ([v,dots] matching vendor expressions),
                    choices (vendor chosen under each tried registration order)]
-   kind "load":   [id, ok, unresolved (count of logic names that do not import), badregex, equalTwice]                                   *)
+   kind "load":   [id, ok, unresolved (count of logic names that do not import), badregex, equalTwice, shippedLoaded, overlayEqual]                                   *)
 EXTENDS HwDb, TLC, Json, IOUtils
 Recs == ndJsonDeserialize(IOEnv.TRACE_FILE)
 VARIABLE i
@@ -34,6 +34,8 @@ VerdictLoad(r) ==
   ELSE IF r.unresolved > 0 THEN "logic-function-not-importable"
   ELSE IF r.badregex > 0 THEN "row-regex-does-not-compile"
   ELSE IF ~r.equalTwice THEN "two-loads-differ"
+  ELSE IF ~r.shippedLoaded THEN "shipped-order-or-deploy-file-not-what-was-loaded"
+  ELSE IF ~r.overlayEqual THEN "site-overlay-changes-the-stock-rulebook"
   ELSE "ok"
 Init == i = 0
 Next == /\ i < Len(Recs) /\ i' = i + 1
